@@ -478,5 +478,94 @@ theorem addRelevantMined_sim {p : Params} {own : Own} {tr : TxRec} {gb sb gb' : 
   dsimp only at hb1 hI h2 ⊢
   subst hb1
   exact addCredits_sim hI ha h2
+/-- what the filter phase guarantees of a relevance record: inputs booked for ready wallets only, outputs
+    paying none of the removed wallet's script hashes -/
+def RecOK (addrs : List Addr) (ready : List Wid) (tr : TxRec) : Prop :=
+  (∀ rel ∈ tr.relIn, ready.contains rel.wallet = true) ∧ (∀ rel ∈ tr.relOut, addrs.contains rel.out.addr = false)
+
+theorem applyRelevant_sim {c : Ctx} {recs : List TxRec} {g1 : Store} (h : SimInv addrs ready bm g s gi si)
+    (hrecs : ∀ tr ∈ recs, RecOK addrs ready tr) (hg : applyRelevant c gi ready bm recs = .ok g1) :
+    ∃ s1, applyRelevant c si ready bm recs = .ok s1 ∧ SimInv addrs ready bm g s g1 s1 := by
+  unfold applyRelevant at hg ⊢
+  split at hg
+  · rename_i hx
+    cases hg
+    rw [if_pos hx]
+    exact ⟨_, rfl, h⟩
+  · rename_i hx
+    rw [if_neg hx]
+    obtain ⟨gb1, h1, h2⟩ := M_bind_ok hg
+    obtain ⟨sb1, hs1, hb, hI⟩ := foldlM_sim (SimR addrs ready bm g s)
+      (fun sb tr => addRelevantMined c.p c.own sb.1 sb.2 tr bm) (fun sb tr => addRelevantMined c.p c.own sb.1 sb.2 tr bm) recs
+      (fun _ _ tr _ htr hR hf => addRelevantMined_sim hR (hrecs tr htr).1 (hrecs tr htr).2 hf)
+      (b := (gi, gi.balance.filter (fun e => ready.contains e.1)))
+      (c := (si, si.balance.filter (fun e => ready.contains e.1))) ⟨by rw [h.balance], h⟩ h1
+    cases h2
+    dsimp only
+    rw [hs1]
+    refine ⟨_, rfl, ?_⟩
+    refine ⟨hI.unspent, hI.game, ?_, hI.sync, hI.syncedTo, hI.status, hI.adr, hI.cred, hI.coins, hI.debS, hI.deb,
+      hI.txS, hI.tx, hI.blk⟩
+    show mergeBalances sb1.2 sb1.1.balance = mergeBalances gb1.2 gb1.1.balance
+    rw [hb, hI.balance]
+
+theorem putSyncedTo_sim {blk : BlockMeta} {g2 : Store} (h : SimInv addrs ready bm g s gi si)
+    (hg : putSyncedTo gi blk = .ok g2) : ∃ s2, putSyncedTo si blk = .ok s2 ∧ SimInv addrs ready bm g s g2 s2 := by
+  unfold putSyncedTo at hg ⊢
+  rw [h.sync]
+  split at hg
+  · cases hg
+  rename_i h1
+  split at hg
+  · cases hg
+  rename_i h2
+  cases hg
+  rw [if_neg h1, if_neg h2]
+  exact ⟨_, rfl, h.unspent, h.game, h.balance, rfl, rfl, h.status, h.adr, h.cred, h.coins, h.debS, h.deb,
+    h.txS, h.tx, h.blk⟩
+
+-- ------------------------------------------------------------------ the filter phase
+
+theorem existCredit_mono (hSub : Sub addrs g s) (hng : KeysNodup g.credits) (hns : KeysNodup s.credits) {id : TxId}
+    (h : existCreditFromTx s id = true) : existCreditFromTx g id = true := by
+  unfold existCreditFromTx at h ⊢
+  rw [List.any_eq_true] at h ⊢
+  obtain ⟨e, he, hid⟩ := h
+  obtain ⟨k, v⟩ := e
+  have hs := (mem_iff_get_of_nodup hns k v).1 he
+  refine ⟨(k, v), (mem_iff_get_of_nodup hng k v).2 ?_, hid⟩
+  rcases hSub.credits k with e | ⟨e, _⟩
+  · rw [← e]; exact hs
+  · rw [hs] at e; cases e
+
+/-- the two stores give the same previous transaction, except when all the credits of that transaction have
+    been removed: then the real store skips the input and the ghost looks the transaction up on the node -/
+theorem prevOf_sim {c : Ctx} (hSub : Sub addrs g s) (hng : KeysNodup g.credits) (hns : KeysNodup s.credits)
+    (hfind : ∀ id, existCreditFromTx g id = true → (c.node.fetchTx id).isSome = true) (inBlk : List Tx) (id : TxId) :
+    prevOf c s true inBlk id = prevOf c g true inBlk id ∨
+    (existCreditFromTx g id = true ∧ existCreditFromTx s id = false ∧ prevOf c s true inBlk id = .skip ∧
+      ∃ pt, c.node.fetchTx id = some pt ∧ prevOf c g true inBlk id = .found pt) := by
+  unfold prevOf
+  simp only [if_true, Bool.true_and]
+  cases inBlk.find? (fun t => t.id = id) with
+  | some t => left; rfl
+  | none =>
+    dsimp only
+    cases hs : existCreditFromTx s id with
+    | true =>
+      have hgt := existCredit_mono hSub hng hns hs
+      have hf := hfind id hgt
+      rw [hgt]
+      cases hn : c.node.fetchTx id with
+      | none => rw [hn] at hf; cases hf
+      | some t => left; rfl
+    | false =>
+      cases hgt : existCreditFromTx g id with
+      | false => left; rfl
+      | true =>
+        have hf := hfind id hgt
+        cases hn : c.node.fetchTx id with
+        | none => rw [hn] at hf; cases hf
+        | some t => right; exact ⟨rfl, rfl, rfl, t, rfl, rfl⟩
 
 end MW.Lemmas.RemoveSim
